@@ -262,10 +262,38 @@ def expand(template_path, repo, vacuity=False):
             text = sf.text[a:b]
             if "pubfields" in opts:
                 text = _pubfields(sf, kw, en, a)
+            for o in opts:
+                if o.startswith("retype="):
+                    # a field whose type is outside the subset is given an opaque stand-in type (declared edit)
+                    fld, newty = o.split("=", 1)[1].split(":", 1)
+                    tt = tokenize(text)
+                    done = False
+                    for k in range(len(tt) - 2):
+                        if tt[k].kind == "id" and tt[k].text == fld.strip() and tt[k + 1].text == ":":
+                            depth, e = 0, k + 2
+                            while e < len(tt):
+                                x = tt[e].text
+                                if x in ("<", "(", "["):
+                                    depth += 1
+                                elif x in (">", ")", "]"):
+                                    depth -= 1
+                                elif (x == "," or x == "}") and depth == 0:
+                                    break
+                                e += 1
+                            text = text[:tt[k + 2].start] + newty.strip() + text[tt[e - 1].end:]
+                            done = True
+                            break
+                    if not done:
+                        raise GenError("%s: field %s not found in %s %s" % (rel, fld, kind, name))
+                if o.startswith("strip_derive="):
+                    # a derive whose hand-written companion impl is not part of the extracted file
+                    for d_ in o.split("=", 1)[1].split(","):
+                        text = re.sub(r"(#\[derive\([^)]*?)\b%s\b\s*,?\s*" % re.escape(d_.strip()), r"\1", text, count=1)
+                    text = re.sub(r",\s*\)\]", ")]", text, count=1)
             if kind == "const":
                 # `const X: &str` is implicitly 'static; Verus (which turns consts into functions) wants it spelled out
                 text = re.sub(r":\s*&\s*str\b", ": &'static str", text, count=1)
-            unit.segs.append(Seg(text + "\n", "repo" if "pubfields" not in opts else "edit",
+            unit.segs.append(Seg(text + "\n", "repo" if not opts else "edit",
                                  {"file": rel, "off": a, "src": sf.text, "fn": kind + " " + name,
                                   "edit": "pubfields", "tline": i + 1}))
             unit.types.append({"file": rel, "item": kind + " " + name, "line": sf.text.count("\n", 0, a) + 1,
